@@ -792,6 +792,59 @@ func chunkTypeProtocol(p *core.Prog, rep *core.Report) {
 			same = false
 		}
 	}
+	// CT2: both readers validate the sequence: the result of the decoder's type is compared against the record-START
+	// set {Full, First} on a path that can return an error (start-of-record vs continuation consistency)
+	for _, fn := range chunkReaders(p) {
+		if fn.Package() == nil || fn.Package().Pkg.Path() != core.ModPath+"/datafile" || core.RecvNamed(fn) == p.R.MMap || core.RecvNamed(fn) == p.R.FileIO {
+			continue
+		}
+		var full, first int64 = -1, -1
+		for k, n := range decl {
+			if n == "Full" {
+				full = k
+			}
+			if n == "First" {
+				first = k
+			}
+		}
+		cmp := map[int64]bool{}
+		for _, b := range fn.Blocks {
+			for _, in := range b.Instrs {
+				bo, ok := in.(*ssa.BinOp)
+				if !ok || (bo.Op != token.EQL && bo.Op != token.NEQ) {
+					continue
+				}
+				if c, idx := extractOf(bo.X); c != nil && c.Common().StaticCallee() == d && idx == 1 {
+					if k, ok := constInt(bo.Y); ok {
+						cmp[k] = true
+					}
+				}
+			}
+		}
+		// an error return whose block is reachable only after the type was decoded and is not the decoder's own error
+		rejects := false
+		ei := core.ErrResultIndex(fn.Signature)
+		for _, r := range core.Returns(fn) {
+			ev := core.ReturnOperand(r, ei)
+			u, ok := ev.(*ssa.UnOp)
+			if !ok {
+				continue
+			}
+			g, ok := u.X.(*ssa.Global)
+			if !ok || g.Name() == "EOF" || g.Name() == "ErrClosed" {
+				continue
+			}
+			// controlled by a condition built from type comparisons
+			for _, pb := range r.Block().Preds {
+				if iff, ok := pb.Instrs[len(pb.Instrs)-1].(*ssa.If); ok {
+					if condUsesType(iff.Cond, d, 0, map[ssa.Value]bool{}) {
+						rejects = true
+					}
+				}
+			}
+		}
+		rep.Check(cmp[first] && cmp[full] && rejects, "CT", "sequence-validated:"+core.FuncKey(fn), "a record must start with Full/First and continue with Middle/Last: the reader tests the start set and rejects a violation with an error", p.Pos(fn.Pos()), fmt.Sprintf("compares type with First: %v, with Full: %v, error return controlled by the type: %v - an orphaned First chunk would be glued to the chunks of the next record and served as data", cmp[first], cmp[full], rejects), true)
+	}
 	rep.Check(same, "CT", "readers-agree-on-terminal-types", "both readers end a record on the same chunk types "+strings.Join(sets, " / "), "", "terminal chunk-type sets differ between the readers: "+strings.Join(sets, " vs "), true)
 }
 
@@ -861,4 +914,37 @@ func cd3bPadPerRecord(p *core.Prog, rep *core.Report, blockSize, header int64) {
 	if n < 2 {
 		core.Failf("vacuity guard: CD3b expected >= 2 writing DataFile methods that assign positions, found %d", n)
 	}
+}
+
+// condUsesType: the boolean expression (through phis of short-circuit evaluation and comparisons) depends on the
+// chunk type returned by the decoder.
+func condUsesType(v ssa.Value, dec *ssa.Function, depth int, seen map[ssa.Value]bool) bool {
+	if v == nil || seen[v] || depth > 8 {
+		return false
+	}
+	seen[v] = true
+	if c, idx := extractOf(v); c != nil && c.Common().StaticCallee() == dec && idx == 1 {
+		return true
+	}
+	switch t := v.(type) {
+	case *ssa.BinOp:
+		return condUsesType(t.X, dec, depth+1, seen) || condUsesType(t.Y, dec, depth+1, seen)
+	case *ssa.Phi:
+		for _, e := range t.Edges {
+			if condUsesType(e, dec, depth+1, seen) {
+				return true
+			}
+		}
+		// the phi of a short-circuit: the controlling conditions of its predecessors
+		for _, pb := range t.Block().Preds {
+			if iff, ok := pb.Instrs[len(pb.Instrs)-1].(*ssa.If); ok {
+				if condUsesType(iff.Cond, dec, depth+1, seen) {
+					return true
+				}
+			}
+		}
+	case *ssa.UnOp:
+		return condUsesType(t.X, dec, depth+1, seen)
+	}
+	return false
 }
